@@ -93,8 +93,11 @@ def contracts():
               'quota_or_engine > 0 and args[0][0] * %s > quota_or_engine'
               % (SZ % 'args[0][1]')},
       ensures=['not (quota_or_engine > 0 and args[0][0] * %s > '
-               'quota_or_engine)' % (SZ % 'args[0][1]')],
-      serves=('C08',))
+               'quota_or_engine)' % (SZ % 'args[0][1]'),
+               # measuring is shallow: the value is never walked (it may be
+               # a lazy or endless stream on its way to a function)
+               'len([e for e in calls if e[0] in ("iter", "next")]) == 0'],
+      serves=('C08', 'C14'))
     c(U + 'limit_memory_usage', name='utils.limit_memory_usage/2',
       params=dict(quota_or_engine=TInt, args=pairs(2)),
       raises={'MemoryQuotaExceededException':
